@@ -37,6 +37,10 @@ pub struct WbCase {
     /// space for `hold_ms`, then reclaim space with deletes: (data blocks, victims, hold_ms)
     #[serde(default)]
     pub full_device: Option<(u16, u8, u16)>,
+    /// values of this many KiB instead of `value_len` (bursts whose bytes, not their entry count,
+    /// fill a shard's 16 MiB buffer); the device is sized to fit
+    #[serde(default)]
+    pub value_kib: u16,
 }
 
 fn strat() -> BoxedStrategy<WbCase> {
@@ -52,8 +56,13 @@ fn strat() -> BoxedStrategy<WbCase> {
         proptest::bool::weighted(0.25),
         prop_oneof![3 => Just(0u8), 1 => 8u8..16],
         prop_oneof![6 => Just(None), 1 => (24u16..64, 1u8..7, prop_oneof![Just(100u16), 300u16..1200, 1200u16..3500]).prop_map(Some)],
+        prop_oneof![10 => Just(0u16), 1 => 64u16..200],
     )
-        .prop_map(|(visible_cpus, keys, hot_updates, overwrite_pct, delete_pct, hammer, value_len, plain_io, ttl_sweep, probes, full_device)| WbCase { visible_cpus, keys, hot_updates, overwrite_pct, delete_pct, hammer, value_len, plain_io, ttl_sweep, probes, full_device })
+        .prop_map(|(visible_cpus, keys, hot_updates, overwrite_pct, delete_pct, hammer, value_len, plain_io, ttl_sweep, probes, full_device, value_kib)| {
+            // byte-filling bursts: no hot key (its updates would multiply the bytes), no sweeper
+            let big = value_kib > 0 && full_device.is_none();
+            WbCase { visible_cpus, keys, hot_updates: if big { 0 } else { hot_updates }, overwrite_pct: if big { overwrite_pct / 4 } else { overwrite_pct }, delete_pct, hammer, value_len, plain_io, ttl_sweep: ttl_sweep && !big, probes, full_device, value_kib: if big { value_kib } else { 0 } }
+        })
         .boxed()
 }
 
@@ -171,7 +180,10 @@ pub fn judge(case: &WbCase, notes: &mut WbNotes) -> Result<(), (String, String)>
     if let Some((blocks, victims, hold_ms)) = case.full_device {
         return judge_full(case, blocks, victims, hold_ms, notes);
     }
-    let cfg = Config { persistent: true, version: 3, cache: false, ttl: case.ttl_sweep, dev: DevSize::Large, max_memory: None, plain_io: case.plain_io, legacy_plain_meta: false, visible_cpus: case.visible_cpus };
+    let value_bytes = if case.value_kib > 0 { case.value_kib as usize * 1024 } else { case.value_len.max(8) as usize };
+    // byte-filling bursts need room for every generation: keys * (1 + overwrites) * blocks
+    let dev = if case.value_kib > 0 { DevSize::Tiny((((case.keys as usize * (value_bytes / 4096 + 2)) * 3 / 2 + 256).min(65_000)) as u16) } else { DevSize::Large };
+    let cfg = Config { persistent: true, version: 3, cache: false, ttl: case.ttl_sweep, dev, max_memory: None, plain_io: case.plain_io, legacy_plain_meta: false, visible_cpus: case.visible_cpus };
     let path = env::fresh_path("wb");
     std::fs::File::create(&path).expect("create");
     let dev = trace::register(&path, true);
@@ -197,7 +209,7 @@ pub fn judge(case: &WbCase, notes: &mut WbNotes) -> Result<(), (String, String)>
     // expected final state of the burst keys
     let mut want: BTreeMap<Vec<u8>, Option<Vec<u8>>> = BTreeMap::new();
     let val = |i: u16, g: u32| -> Vec<u8> {
-        let mut v = vec![0u8; case.value_len.max(8) as usize];
+        let mut v = vec![0u8; value_bytes];
         seq::stamp_fill(&mut v, i, g);
         v
     };
@@ -440,6 +452,12 @@ pub fn run(tier: Tier, seed: u64, replay: Option<&str>) -> i32 {
             if case.hot_updates > 512 {
                 *c.entry("buffer_filling_burst".into()).or_insert(0) += 1;
             }
+            if case.value_kib > 0 && case.full_device.is_none() {
+                *c.entry("byte_filling_burst".into()).or_insert(0) += 1;
+                if case.keys as usize * case.value_kib as usize > 16 * 1024 * notes.shards.max(1) {
+                    *c.entry("byte_filling_burst.over_16MiB_per_shard".into()).or_insert(0) += 1;
+                }
+            }
             if case.hammer && case.full_device.is_none() {
                 *c.entry("busy_neighbour".into()).or_insert(0) += 1;
             }
@@ -469,7 +487,7 @@ pub fn run(tier: Tier, seed: u64, replay: Option<&str>) -> i32 {
         tier,
         seed,
         "exploration",
-        "proptest-generated live workloads without any explicit flush on stores built with 1..8 workers/shards (2-16 visible CPUs): 64-260 distinct keys (so all shards are hit), overwrites and deletes whose old generations must be retired, optional buffer-filling burst on one key (>1024 entries in one shard), optional hammering neighbour thread, optional TTL keys removed by the sweeper, small to 9 KB values, both I/O paths, odd and even CPU counts; a quarter of the cases continues with 8-15 single writes issued one at a time, each awaited separately (sparse traffic); a seventh of the cases instead fills a 24-63 block device with one-block records, issues 1-6 further accepted writes that must wait for space for 0.1-3.5 s, reclaims space with accepted deletes and requires the waiting writes on the device within the same bound. After the last call returns the harness polls (peek/snapshot hooks) until every accepted key has a device extent and, without a busy neighbour, no buffered entry or retirement is pending; then the fsync-covered image rebuilt from the I/O trace must decode (independent codec) to the final values with no superseded generation left, and recover. Violation only if not drained 15 s + 5x the largest measured scheduling stall after the last call, reproduced twice; 2 s..15 s is recorded as slow. Non-trivial: at least two shards held pending entries at the end of the burst, one of them owned by a worker other than worker 0.",
+        "proptest-generated live workloads without any explicit flush on stores built with 1..8 workers/shards (2-16 visible CPUs): 64-260 distinct keys (so all shards are hit), overwrites and deletes whose old generations must be retired, optional buffer-filling burst on one key (>1024 entries in one shard), one case in eleven with values of 64-200 KiB (a burst whose bytes exceed a shard's 16 MiB buffer), optional hammering neighbour thread, optional TTL keys removed by the sweeper, small to 9 KB values, both I/O paths, odd and even CPU counts; a quarter of the cases continues with 8-15 single writes issued one at a time, each awaited separately (sparse traffic); a seventh of the cases instead fills a 24-63 block device with one-block records, issues 1-6 further accepted writes that must wait for space for 0.1-3.5 s, reclaims space with accepted deletes and requires the waiting writes on the device within the same bound. After the last call returns the harness polls (peek/snapshot hooks) until every accepted key has a device extent and, without a busy neighbour, no buffered entry or retirement is pending; then the fsync-covered image rebuilt from the I/O trace must decode (independent codec) to the final values with no superseded generation left, and recover. Violation only if not drained 15 s + 5x the largest measured scheduling stall after the last call, reproduced twice; 2 s..15 s is recorded as slow. Non-trivial: at least two shards held pending entries at the end of the burst, one of them owned by a worker other than worker 0.",
     );
     ev.started = started;
     ev.evaluations = evaluations.load(Ordering::Relaxed);
